@@ -38,9 +38,10 @@ type Frame struct {
 	Type   uint8
 	Flags  uint8
 	Stream uint32
-	Len    int // payload length on the wire (what counts against flow control for DATA)
-	At     int // scheduler step at which the peer received it
-	Seq    int // index in the peer's receive order
+	Len    int   // payload length on the wire (what counts against flow control for DATA)
+	At     int   // scheduler step at which the peer received it
+	Seq    int   // index in the peer's receive order
+	Off    int64 // offset of the frame\'s first octet in the stream it was read from
 
 	Data       []byte // DATA payload without padding
 	Block      []byte // header block fragment
@@ -121,8 +122,9 @@ func (r *FrameReader) Next() *Frame {
 		return nil
 	}
 	raw := r.buf[:9+l]
+	off := int64(r.Total - len(r.buf))
 	r.buf = r.buf[9+l:]
-	f := &Frame{Type: raw[3], Flags: raw[4], Stream: binary.BigEndian.Uint32(raw[5:9]) & 0x7fffffff, Len: l, Seq: r.seq}
+	f := &Frame{Type: raw[3], Flags: raw[4], Stream: binary.BigEndian.Uint32(raw[5:9]) & 0x7fffffff, Len: l, Seq: r.seq, Off: off}
 	r.seq++
 	fr := xh2.NewFramer(nil, bytes.NewReader(raw))
 	fr.AllowIllegalReads = true
